@@ -153,6 +153,9 @@ type Spec struct {
 	LenientLookup bool `json:"lenient_lookup,omitempty"`
 	// KeysPerIssuer: the storage keeps one response-signing key per issuer (tenant) and picks it by the issuer in the context
 	KeysPerIssuer bool `json:"keys_per_issuer,omitempty"`
+	// RequestIDPrefix: what the identifiers the storage issues for persisted requests start with ("" = "stored-"); identifiers
+	// are the storage's business and may contain any character
+	RequestIDPrefix string `json:"request_id_prefix,omitempty"`
 }
 
 // MetadataXML renders the SP metadata through the harness's own writer.
